@@ -537,6 +537,8 @@ class RecvWorld(World):
         return bool(self.sc.get("relax_x")) and (x == i or (isinstance(x, (list, tuple)) and i in x))
 
     def task_name_for(self, i: int) -> str:
+        if self.sc.get("reregister"):
+            return "t_swap"
         if self.msgs[i].get("task_kind") == "annot":
             return "t_annot"
         if self.msgs[i]["flavour"] == "sync" and self.sc.get("executor") == "pickle":
@@ -605,6 +607,11 @@ class RecvWorld(World):
         t_sync.__module__ = "mc.recv_world"
         t_annot.__module__ = "mc.recv_world"
         broker.register_task(t_async, task_name="t_async")
+        if self.sc.get("reregister"):
+            # one task name whose function is registered again (sync <-> async) between executions: every
+            # message runs the function registered under the name when it is processed (A = 1, in order)
+            self._swap = (broker, {"sync": t_sync, "async": t_async})
+            broker.register_task(self._swap[1][self.msgs[0]["flavour"]], task_name="t_swap")
         broker.register_task(t_sync, task_name="t_sync")
         broker.register_task(t_annot, task_name="t_annot")
 
@@ -787,6 +794,8 @@ class RecvWorld(World):
         kind = ev[0]
         if len(ev) > 1 and isinstance(ev[1], int) and ev[1] in self.per:
             self.per[ev[1]].append((kind,) + tuple(ev[2:]))
+        if kind == "CB_E" and self.sc.get("reregister") and ev[1] + 1 < len(self.msgs) and getattr(self, "_swap", None):
+            self._swap[0].register_task(self._swap[1][self.msgs[ev[1] + 1]["flavour"]], task_name="t_swap")
         if kind == "TAKEN":
             self.taken.append(ev[1])
             self._check_unfinished()
